@@ -20,6 +20,9 @@ inductive Err where
   | extenderWithoutCommand (line : Nat)
   /-- "exit code provided multiple times" -/
   | exitCodeTwice (line : Nat)
+  /-- "exit code [..] is out of range": the line has the form `^\[([0-9]+)\]$` but the number does
+  not fit into an `i32` -/
+  | exitCodeOutOfRange (line : Nat)
   /-- `expectation_maker.parse(line)` failed ("parsing line N") -/
   | expectationParse (line : Nat)
   /-- "testcase output expectation(s) given, but no shell expression specified" -/
@@ -83,8 +86,20 @@ def digitsVal (ds : List Char) : Nat := ds.foldl (fun acc c => acc * 10 + (c.toN
 /-- `i32::MAX` -/
 def i32Max : Nat := 2147483647
 
-/-- `extract_exit_code`: `^\[([0-9]+)\]$`, then `parse::<i32>()` (`None` on overflow, so that the
-line becomes an expectation). -/
+/-- `EXIT_CODE_EXPRESSION.is_match(line)`: `^\[([0-9]+)\]$` (the Rust `regex` crate: `$` is the end
+of the text, no multi-line mode, `[0-9]` is ASCII only) -/
+def isExitCodeForm (line : List Char) : Bool :=
+  match line with
+  | '[' :: rest =>
+    match rest.reverse with
+    | ']' :: revDigits =>
+      let ds := revDigits.reverse
+      !ds.isEmpty && ds.all isAsciiDigit
+    | _ => false
+  | _ => false
+
+/-- `extract_exit_code`: `^\[([0-9]+)\]$`, then `parse::<i32>()` (`None` on overflow;
+`add_testcase_body` turns that `None` into the error `exitCodeOutOfRange`). -/
 def extractExitCode (line : List Char) : Option Nat :=
   match line with
   | '[' :: rest =>
@@ -97,6 +112,48 @@ def extractExitCode (line : List Char) : Option Nat :=
       else none
     | _ => none
   | _ => none
+
+/-- the new test of `add_testcase_body`:
+`EXIT_CODE_EXPRESSION.is_match(line) && extract_exit_code(line).is_none()` -/
+def exitCodeOverflows (line : List Char) : Bool :=
+  isExitCodeForm line && (extractExitCode line).isNone
+
+theorem extractExitCode_eq (line : List Char) :
+    extractExitCode line =
+      if isExitCodeForm line then
+        (if digitsVal (line.drop 1).dropLast ≤ i32Max then some (digitsVal (line.drop 1).dropLast) else none)
+      else none := by
+  unfold extractExitCode isExitCodeForm
+  split
+  · rename_i rest
+    split
+    · rename_i revDigits hrev
+      have hr : rest = revDigits.reverse ++ [']'] := by
+        have := congrArg List.reverse hrev
+        simpa using this
+      simp only [List.drop_succ_cons, List.drop_zero, hr, List.dropLast_concat]
+    · simp
+  · simp
+
+/-- a line that is not of the exit-code form has no exit code -/
+theorem extractExitCode_of_not_form {line : List Char} (h : isExitCodeForm line = false) :
+    extractExitCode line = none := by
+  rw [extractExitCode_eq, h]; rfl
+
+/-- only lines of the exit-code form have an exit code -/
+theorem isExitCodeForm_of_extract {line : List Char} {v : Nat} (h : extractExitCode line = some v) :
+    isExitCodeForm line = true := by
+  cases hf : isExitCodeForm line with
+  | true => rfl
+  | false => rw [extractExitCode_of_not_form hf] at h; cases h
+
+theorem exitCodeOverflows_of_not_form {line : List Char} (h : isExitCodeForm line = false) :
+    exitCodeOverflows line = false := by
+  simp [exitCodeOverflows, h]
+
+theorem exitCodeOverflows_of_extract {line : List Char} {v : Nat} (h : extractExitCode line = some v) :
+    exitCodeOverflows line = false := by
+  simp [exitCodeOverflows, h]
 
 /-- `str::strip_prefix` -/
 def stripPrefix (p : List Char) (l : List Char) : Option (List Char) :=
@@ -143,6 +200,9 @@ def State.addBodyRest {κ} (expOk : List Char → Bool) (s : State κ) (line : L
     let s := { s with inCommand := false }
     -- exit codes and output expectations belong to the shell expression above them
     if s.command.isEmpty then .error (.bodyWithoutCommand (index + 1)) else
+    -- an exit code that does not fit is no output expectation
+    if exitCodeOverflows line then
+      .error (.exitCodeOutOfRange (index + 1)) else
     match extractExitCode line with
     | some code =>
       if s.exitCode.isSome then .error (.exitCodeTwice (index + 1))
